@@ -33,8 +33,91 @@ store_harness!(c18_ephemeral_kinds, {
     core::mem::forget(store);
 });
 
-//@ harness: c18_remove_exactly_one
+//@ harness: c18_ephemeral_not_indexed
 //@ tier: quick
+//@ timeout: 700
+//@ mem: 20
+//@ covers: any
+//@ unwindset: put_bytes=80; heed::bytes_=260; heed::Table=6; memcmp.0=70; repeat::Repeat=190; Repeat.*try_fold=190; mmap_append=200; read_hex=34; enc_tags=6
+//@ cbmc: --max-field-sensitivity-array-size 1100
+//@ encodes: Store::store_event (ephemeral branch: appended, not indexed), Kind::is_ephemeral, Store::stats, Store::has_event
+//@ bounds: fresh store; one event with an indexable tag [e ab] whose kind is ARBITRARY in 20000..=29999 and whose created_at is arbitrary in 4096..=4351: the complete store_event succeeds, the event is not retrievable by id, and every index table (id, time, author, author-kind and the three tag indexes) still has 0 entries - so no query path can reach it either
+//@ outside: vanish; removal among several events (thorough)
+store_harness!(c18_ephemeral_not_indexed, {
+    let store = verif_store();
+    let k: u16 = kani::any();
+    kani::assume(k >= 20000 && k <= 29999);
+    let lo: u8 = kani::any();
+    let t: u64 = 0x1000 + lo as u64;
+    let mut b = [0u8; 170];
+    let n = enc_event_img(k, t, &ID_A, &PK_1, &SIG_0, &[&[1, 2]], b"eab", b"", &mut b);
+    let o = outcome(store.store_event(as_event(&b[..n])));
+    kani::cover!(k == 29999);
+    assert!(o == Outcome::Stored);
+    assert!(!has(&store, &ID_A), "an ephemeral event is retrievable by id");
+    let s = ok!(store.stats());
+    let ix = &s.index_stats;
+    assert!(ix.i_index_entries == 0 && ix.ci_index_entries == 0 && ix.ac_index_entries == 0 && ix.akc_index_entries == 0, "an ephemeral event was indexed");
+    assert!(ix.tc_index_entries == 0 && ix.atc_index_entries == 0 && ix.ktc_index_entries == 0, "an ephemeral event's tag was indexed");
+    assert!(ix.deleted_index_entries == 0 && ix.deleted_naddr_index_entries == 0);
+    core::mem::forget(s);
+    core::mem::forget(store);
+});
+
+//@ harness: c18_remove_absent_no_marker
+//@ tier: thorough
+//@ timeout: 3000
+//@ mem: 16
+//@ covers: none
+//@ unwindset: put_bytes=80; heed::bytes_=260; heed::Table=6; memcmp.0=70; repeat::Repeat=190; Repeat.*try_fold=190; mmap_append=200; read_hex=34; enc_tags=6
+//@ cbmc: --max-field-sensitivity-array-size 1100
+//@ encodes: Store::remove_event, Store::remove_by_id (absent id), Store::event_is_deleted, Store::has_event
+//@ bounds: fresh store; remove_event of an ARBITRARY id (first and last byte arbitrary) that is not stored succeeds, makes no durable change and leaves NO deletion marker on that id - explicit removal never marks an id as deleted, so a later submission is not blocked by it
+//@ outside: removal of a stored event and removal among several events (thorough: c18_remove_exactly_one; dereferences stored events, DESIGN.md 8.2); the later submission itself (thorough: c18_remove_absent_then_store); vanish
+store_harness!(c18_remove_absent_no_marker, {
+    let store = verif_store();
+    let env = crate::lmdb::verif_db_lmdb_helper::env_of(&store.indexes);
+    let commits = heed::verif::mutating_commits(env);
+    let mut id = ID_A;
+    id[0] = kani::any();
+    id[31] = kani::any();
+    ok!(store.remove_event(Id::from_bytes(id)));
+    assert!(heed::verif::mutating_commits(env) == commits);
+    assert!(!ok!(store.event_is_deleted(Id::from_bytes(id))), "explicit removal left a deletion marker");
+    assert!(!ok!(store.has_event(Id::from_bytes(id))));
+    core::mem::forget(store);
+});
+
+//@ harness: c18_remove_absent_then_store
+//@ tier: thorough
+//@ timeout: 3000
+//@ mem: 20
+//@ covers: none
+//@ unwindset: put_bytes=80; heed::bytes_=260; heed::Table=6; memcmp.0=70; repeat::Repeat=190; Repeat.*try_fold=190; mmap_append=200; read_hex=34; enc_tags=6
+//@ cbmc: --max-field-sensitivity-array-size 1100
+//@ encodes: Store::remove_event, Store::remove_by_id (absent id), Store::event_is_deleted, Store::store_event
+//@ bounds: fresh store; remove_event of an id that is not stored succeeds, makes no durable change and leaves NO deletion marker on that id; an event with that id (kind 1, created_at arbitrary in 4096..=4351, one tag) is then accepted by a complete store_event and is retrievable - explicit removal never blocks a later submission
+//@ outside: removal of a stored event and removal among several events (thorough: c18_remove_exactly_one; dereferences stored events, DESIGN.md 8.2); vanish
+store_harness!(c18_remove_absent_then_store, {
+    let store = verif_store();
+    let env = crate::lmdb::verif_db_lmdb_helper::env_of(&store.indexes);
+    let commits = heed::verif::mutating_commits(env);
+    ok!(store.remove_event(Id::from_bytes(ID_A)));
+    assert!(heed::verif::mutating_commits(env) == commits);
+    assert!(!ok!(store.event_is_deleted(Id::from_bytes(ID_A))), "explicit removal left a deletion marker");
+    let lo: u8 = kani::any();
+    let t: u64 = 0x1000 + lo as u64;
+    let mut b = [0u8; 170];
+    let n = enc_event_img(1, t, &ID_A, &PK_1, &SIG_0, &[&[1, 2]], b"eab", b"", &mut b);
+    let o = outcome(store.store_event(as_event(&b[..n])));
+    assert!(o == Outcome::Stored, "an event was refused after its id had been explicitly removed");
+    assert!(has(&store, &ID_A));
+    assert!(!ok!(store.event_is_deleted(Id::from_bytes(ID_A))));
+    core::mem::forget(store);
+});
+
+//@ harness: c18_remove_exactly_one
+//@ tier: thorough
 //@ timeout: 2400
 //@ mem: 16
 //@ covers: none
